@@ -16,7 +16,7 @@ int main(void) {
 	if (IN.have_pool) {
 		token_pool = malloc(sizeof(pool)); ASSUME(token_pool != 0);
 		token_pool->object_size = sizeof(token);
-		token_pool->allocated = stack_new(1024); ASSUME(token_pool->allocated != 0);
+		token_pool->allocated = stack_new(8); ASSUME(token_pool->allocated != 0);       /* capacity is irrelevant to the protocol; 8 slots keep the object small */
 		if (IN.drained) { token_pool->next = 0; token_pool->last = 0; }
 		else {
 			ASSUME(IN.nprev <= 1);
